@@ -324,6 +324,33 @@ def oracle_pair(calc, s1, s2, canon):
     raise ValueError(calc)
 
 
-def oracle_margin(calc, s1, s2, canon):
-    """True when the validity decision of the pair is numerically delicate (skip those)"""
-    return False
+def validity_margin(calc, s1, s2, canon):
+    """smallest |x| among the exact quantities whose sign decides validity (log arguments / determinant)
+    for this pair, or None when there is no such quantity; used to skip numerically delicate decisions"""
+    cols = [(a, b) for a, b in zip(s1, s2) if a in canon and b in canon]
+    n = len(cols)
+    if n == 0 or all(a == b for a, b in cols):
+        return None
+    A, C, G, T = canon
+    if calc == "tn93":
+        pi = {x: Fraction(sum(1 for a, b in cols if a == x) + sum(1 for a, b in cols if b == x), 2 * n) for x in canon}
+        P1 = Fraction(sum(1 for a, b in cols if {a, b} == {A, G}), n)
+        P2 = Fraction(sum(1 for a, b in cols if {a, b} == {C, T}), n)
+        Q = Fraction(sum(1 for a, b in cols if a != b), n) - P1 - P2
+        piR, piY = pi[A] + pi[G], pi[C] + pi[T]
+        ws = []
+        if pi[A] * pi[G]:
+            ws.append(1 - piR * P1 / (2 * pi[A] * pi[G]) - Q / (2 * piR))
+        if pi[C] * pi[T]:
+            ws.append(1 - piY * P2 / (2 * pi[T] * pi[C]) - Q / (2 * piY))
+        if piR * piY:
+            ws.append(1 - Q / (2 * piR * piY))
+        return min(abs(w) for w in ws) if ws else None
+    if calc in ("paralinear", "logdet", "logdet_notk"):
+        J = [[Fraction(sum(1 for a, b in cols if a == x and b == y)) for y in canon] for x in canon]
+        for i in range(4):
+            if J[i][i] == 0:
+                J[i][i] = Fraction(1, 2)
+        tot = sum(map(sum, J))
+        return abs(det_frac([[v / tot for v in row] for row in J]))
+    return None
